@@ -2497,6 +2497,31 @@ pub (crate) fn bid128_ext_fma(
                                 z_exp = res.w[1] & MASK_EXP;
                             } // end result is inexact
                         } // end q4 > 1
+                        // the exact difference (10^34 - d) * 10^e3 can still lie above the largest finite number
+                        if e3 > EXP_MAX_UNBIASED {
+                            if rnd_mode == RoundingMode::NearestEven {
+                                res.w[1] = z_sign | 0x7800000000000000u64; // +/-inf
+                                res.w[0] = 0x0000000000000000u64;
+                                *pfpsf  |= StatusFlags::BID_INEXACT_EXCEPTION | StatusFlags::BID_OVERFLOW_EXCEPTION;
+                            } else {
+                                bid_rounding_correction(
+                                    rnd_mode,
+                                    is_inexact_lt_midpoint,
+                                    is_inexact_gt_midpoint,
+                                    is_midpoint_lt_even,
+                                    is_midpoint_gt_even,
+                                    e3, &mut res, pfpsf);
+                            }
+                            *ptr_is_midpoint_lt_even    = is_midpoint_lt_even;
+                            *ptr_is_midpoint_gt_even    = is_midpoint_gt_even;
+                            *ptr_is_inexact_lt_midpoint = is_inexact_lt_midpoint;
+                            *ptr_is_inexact_gt_midpoint = is_inexact_gt_midpoint;
+
+                            #[cfg(target_endian = "big")]
+                            BID_SWAP128(&mut res);
+
+                            return res;
+                        }
                     } else { // if (e3 = emin)
                         // if e3 = EXP_MIN_UNBIASED the result is also tiny (the condition for
                         // tininess is C4 > 050...0 [q4 digits] which is met because
